@@ -24,7 +24,9 @@ RULE = ("three generated families, all truth assignments (2^n, n<=6; sampled abo
         "a coroutine, sync returning a non-coroutine awaitable, sync returning a done Future}; oracle = reference trace "
         "(each awaited, its RESULT judged); (C) the two coroutine flavours on sync callables -> ValueError, body not "
         "run, when the evaluation reaches them; (D) recursion pairs - the re-entrant call graphs of C10 (contracts and "
-        "bodies calling contracted callables again) rendered sync and async must give the same trace and outcomes. non-trivial = a falsy contract in an async rendering, or a non-sync "
+        "bodies calling contracted callables again) rendered sync and async must give the same trace and outcomes; (E) "
+        "signature pairs - signatures and call shapes of the C05 space as def and async def: every callback receives "
+        "the same values. non-trivial = a falsy contract in an async rendering, or a non-sync "
         "flavour that is reached; distinct = hash(family, program, ops, assignment).")
 ASSUMPTIONS = ["coroutines never really suspend here (driven with send(None)); real suspension is C12's business",
                "conditions with a non-sync flavour are named functions or carry an own error (documented requirement)"]
@@ -234,6 +236,61 @@ def directed_pairs():
                    "target_kind": "method", "family": "pair", "directed_pair": [list(ons), level]}
 
 
+def signature_pairs(ctx, tier):
+    """Family (E): the same signature and call shape (positional-only / keyword-only / variadic parameters, defaults,
+    surplus keywords incl. names equal to positional-only parameters) as `def` and as `async def`: the precondition,
+    capture, postcondition and error factory receive identical values in both renderings (rig of C05)."""
+    from vf import sigmodel
+    from vf.props import c05
+
+    n = 0
+    for si, sig in enumerate(sigmodel.enumerate_sigs(max_po=1, max_pk=2, max_ko=1)):
+        if tier == "quick" and si % 3:
+            continue
+        names = sigmodel.sig_params(sig)
+        full = names + ["_ARGS", "_KWARGS"]
+        req = {"pre": full, "cap": full, "post": full + ["result", "OLD"], "errpre": full, "errpost": full + ["result", "OLD"]}
+        for shape in sigmodel.enumerate_shapes(sig, max_surplus=1):
+            for mode in ("A", "C"):
+                views = {}
+                for flavour in ("func", "async"):
+                    rig = c05.get_rig(sig, req, None, flavour)
+                    args, kwargs = sigmodel.make_call(sig, shape)
+                    ident = {id(v): "pos%d" % i for i, v in enumerate(args)}
+                    ident.update({id(v): "kw:" + k for k, v in kwargs.items()})
+                    for k, v in rig.defaults.items():
+                        ident[id(v)] = "default:" + k
+                    rig.log, rig.inner_log, rig.mode, rig.err_obj, rig.reenter, rig.self_by_keyword = [], [], mode, None, None, False
+                    try:
+                        rig.call(rig.func, args, kwargs)
+                        out = "returned"
+                    except core.HarnessError:
+                        raise
+                    except BaseException as e:  # noqa
+                        out = "factory-error" if e is rig.err_obj else type(e).__name__
+
+                    def lab(v):
+                        if isinstance(v, tuple):
+                            return tuple(lab(x) for x in v)
+                        if isinstance(v, dict):
+                            return tuple((k, lab(x)) for k, x in v.items())
+                        return ident.get(id(v), type(v).__name__)
+                    views[flavour] = (out, [(role, sorted((k, lab(v)) for k, v in loc.items() if k not in ("OLD", "result")))
+                                            for role, loc in rig.log])
+                n += 1
+                case = {"family": "signature-pair", "sig": sig, "shape": shape, "mode": mode}
+                ctx.case(["signature-pair", sig, shape, mode], bool(sig["po"] or sig["ko"] or sig["va"] or sig["vk"]),
+                         sample=lambda: {"family": "signature-pair", "def": sigmodel.render_params(sig, lambda n_: "<dflt>"),
+                                         "shape": shape, "mode": mode})
+                if views["func"] != views["async"]:
+                    feats = sigmodel.shape_features(sig, shape)
+                    ctx.fail("signature-pair|%s" % ",".join(sorted(f for f in feats if "collides" in f or "surplus" in f) or ["plain"]),
+                             case, "def f(%s) called with %d positionals and keywords %s (mode %s):\n sync:  %r\n async: %r" % (
+                                 sigmodel.render_params(sig, lambda n_: "<dflt>"), shape["npos"], sorted(shape["kw"] + shape["xkw"]),
+                                 mode, views["func"], views["async"]))
+    ctx.count("signature_pairs", n)
+
+
 def run(ctx, tier, seed, shard, nshards):
     global _active
     warnings.simplefilter("ignore", RuntimeWarning)
@@ -252,11 +309,14 @@ def run(ctx, tier, seed, shard, nshards):
         for case in directed_pairs():
             D.run_one(ctx, case, judge_pair, nontrivial=nontrivial)
         ctx.count("directed_pair_programs", 24)
+        signature_pairs(ctx, tier)
 
 
 def replay(ctx, case):
     warnings.simplefilter("ignore", RuntimeWarning)
     fam = case.get("family", "pair")
+    if fam == "signature-pair":
+        return signature_pairs(ctx, "thorough")
     if fam == "recursion-pair":
         import sys
 
